@@ -18,8 +18,213 @@ SITES = [
 ]
 
 
+def option_parts(E, v):
+    """(is_some condition, payload term) of an Option value built from Agg / Phi alternatives"""
+    if isinstance(v, sym.Agg):
+        if v.tag.endswith("Some"):
+            return z3.BoolVal(True), E.to_term(v.fields[0], "i64") if v.fields else None
+        if v.tag.endswith("None"):
+            return z3.BoolVal(False), z3.BitVecVal(0, 64)
+        return None
+    if isinstance(v, sym.Phi):
+        parts = [(c, option_parts(E, x)) for c, x in v.alts]
+        if any(p is None or p[1] is None for _, p in parts):
+            return None
+        some, val = parts[-1][1]
+        for c, (s_, v_) in reversed(parts[:-1]):
+            some, val = z3.If(c, s_, some), z3.If(c, v_, val)
+        return some, val
+    return None
+
+
+def epoch_heuristic(ctx):
+    """the integer-epoch unit heuristic over the whole i128 range, from MIR through the integer encoding"""
+    import time as _time
+    from .c17 import native_binary, run_native
+    r = oblig.Result("B-3", "TimeParser::normalize_integer_epoch over every i128: |n| < 10^11 is taken as seconds unchanged; 12-14 digits "
+                            "(milliseconds), 15-16 (microseconds) and 17-19 (nanoseconds) map to the floor of the denoted instant "
+                            "in seconds (also before 1970); 20 or more digits are rejected; the result always fits i64")
+    r.functions = ["TimeParser::normalize_integer_epoch", "num_digits_u128 (unrolled 40x, inlined by substitution)",
+                   "i128::unsigned_abs / div_euclid, i64::try_from(i128), Result::ok (modelled exactly)"]
+    r.bounds = ("the whole i128 range; num_digits_u128's loop unrolled 40 times with the unwinding assertion (no 41st iteration) "
+                "discharged by the solver; machine arithmetic decided through the mod-2^128 integer encoding")
+    out = [r]
+    Ed, err = ctx.load("shared-time-num_digits_u128.", ghosts={}, k=40)
+    En, err2 = ctx.load("shared-time-{impl#0}-normalize_integer_epoch.", ghosts={}, k=2)
+    if Ed is None or En is None or not Ed.returns or not En.returns:
+        r.status = "inconclusive"
+        r.notes.append(err or err2 or "no return")
+        return out
+    q = ctx.q
+    t0 = _time.time()
+    # unwinding assertion of the digit loop
+    if not Ed.cut_conditions:
+        r.status = "inconclusive"
+        r.notes.append("digit loop: no cut edge recorded")
+        return out
+    try:
+        tq = _time.time()
+        res, _ = oblig.int_check(q, z3.Or(Ed.cut_conditions))
+        if _time.time() - tq > 5:
+            r.notes.append(f"unwinding assertion: {res} in {_time.time() - tq:.0f} s")
+    except oblig.IntEncodingError as e:
+        r.status = "inconclusive"
+        r.notes.append(f"digit loop not encodable: {e}")
+        return out
+    r.queries += 1
+    if res != z3.unsat:
+        r.status = "inconclusive"
+        r.notes.append("unwinding assertion of num_digits_u128 not discharged (a 41st iteration is feasible?)")
+        return out
+    # callee lemma: num_digits_u128(x) is the number of decimal digits of x, window by window
+    rets = [(reach, Ed.to_term(env.get(0), "u32")) for (_n, reach, env) in Ed.returns]
+    if any(t is None for _, t in rets):
+        r.status = "inconclusive"
+        r.notes.append("num_digits_u128 return value not a term")
+        return out
+    D = rets[-1][1]
+    for reach, t in rets[:-1]:
+        D = z3.If(reach, t, D)
+    try:
+        encd = oblig.IntEnc()
+        Di = encd.tr(z3.simplify(D))
+        X = encd.tr(Ed.sym("arg:x", "u128"))
+    except oblig.IntEncodingError as e:
+        r.status = "inconclusive"
+        r.notes.append(f"digit loop not encodable: {e}")
+        return out
+    for jdig in range(1, 40):
+        s = z3.Solver()
+        s.set("timeout", 60000)
+        s.add(*encd.ranges)
+        s.add(X >= (0 if jdig == 1 else 10 ** (jdig - 1)))
+        if jdig < 39:
+            s.add(X < 10 ** jdig)
+        s.add(Di != jdig)
+        res = s.check()
+        r.queries += 1
+        q.queries += 1
+        if res != z3.unsat:
+            r.status = "inconclusive" if res != z3.sat else "violated"
+            if res == z3.sat:
+                xv = s.model().eval(X, model_completion=True)
+                r.witness = {"what": f"num_digits_u128({xv}) is not {jdig}", "span": None, "call": "num_digits_u128", "path": [],
+                             "model": {"x": str(xv)}}
+            else:
+                r.notes.append(f"digit lemma for {jdig} digits not decided")
+            return out
+    call = [e for e in En.events if re.search(r"num_digits_u128$", e.func)]
+    if len(call) != 1:
+        r.status = "inconclusive"
+        r.notes.append("anchor not found: num_digits_u128 call")
+        return out
+    absn = En.to_term(call[0].args[0], "u128")
+    dsym = En.sym(call[0].site, "u32")
+    parts = None
+    if len(En.returns) == 1:
+        parts = option_parts(En, En.returns[0][2].get(0))
+    if parts is None or absn is None:
+        r.status = "inconclusive"
+        r.notes.append("return value of normalize_integer_epoch not resolved to Option parts")
+        return out
+    n = En.sym("arg:n", "i128")
+    try:
+        enc = oblig.IntEnc()
+        some_i = enc.tr(parts[0])
+        val_i = enc.signed(parts[1])
+        N = enc.signed(n)
+        arg_i = enc.tr(absn)
+        d_i = enc.tr(dsym)
+    except oblig.IntEncodingError as e:
+        r.status = "inconclusive"
+        r.notes.append(f"not encodable: {e}")
+        return out
+    # the callee's result, by the lemma above, is the digit count of its argument: one query per digit count
+    A = z3.If(N >= 0, N, -N)
+    r.nontrivial = True
+    cases = []
+    for jdig in range(1, 40):
+        if jdig <= 11:
+            cases.append((jdig, "seconds", True, N))
+        elif jdig <= 14:
+            cases.append((jdig, "milliseconds", True, N / z3.IntVal(1000)))
+        elif jdig <= 16:
+            cases.append((jdig, "microseconds", True, N / z3.IntVal(10 ** 6)))
+        elif jdig <= 19:
+            cases.append((jdig, "nanoseconds", True, N / z3.IntVal(10 ** 9)))
+        else:
+            cases.append((jdig, "rejected", False, None))
+    for jdig, label, want_some, want_val in cases:
+        label = f"{label} ({jdig} digits)"
+        window = [d_i == jdig, arg_i >= (10 ** (jdig - 1) if jdig > 1 else 0)] + ([arg_i < 10 ** jdig] if jdig < 39 else [])
+        ok = some_i if want_some else z3.Not(some_i)
+        if want_some:
+            ok = z3.And(ok, val_i == want_val)       # z3's integer division by a positive constant is the floor
+        res = None
+        for sign in (N >= 0, N < 0):
+            s = z3.Solver()
+            s.set("timeout", 60000)
+            s.add(*enc.ranges)
+            s.add(*window)
+            s.add(sign, A == arg_i)
+            s.add(z3.Not(ok))
+            tq = _time.time()
+            res = s.check()
+            r.queries += 1
+            q.queries += 1
+            if _time.time() - tq > 5:
+                r.notes.append(f"{label}: {res} in {_time.time() - tq:.0f} s")
+            if res != z3.unsat:
+                break
+        if res == z3.unsat:
+            # |n| really is the callee's argument (both signs), and the window is inhabited
+            s2 = z3.Solver()
+            s2.set("timeout", 60000)
+            s2.add(*enc.ranges)
+            s2.add(A != arg_i)
+            s3 = z3.Solver()
+            s3.add(*enc.ranges)
+            s3.add(*window)
+            if jdig == 1 and s2.check() != z3.unsat:
+                r.status = "inconclusive"
+                r.notes.append("the argument of num_digits_u128 is not |n|")
+                return out
+            if s3.check() != z3.sat:
+                r.status = "inconclusive"
+                r.notes.append(f"window {label} is empty (vacuous)")
+                return out
+            continue
+        if res != z3.sat:
+            r.status = "inconclusive"
+            r.notes.append(f"solver returned unknown for {label}")
+            return out
+        m = s.model()
+        nv = m.eval(N, model_completion=True).as_long()
+        r.status = "violated"
+        got_some = z3.is_true(m.eval(some_i, model_completion=True))
+        got_val = m.eval(val_i, model_completion=True).as_long()
+        r.witness = {"what": f"integer epoch {nv} ({label}): the parser returns {'Some(' + str(got_val) + ')' if got_some else 'None'}, "
+                             f"expected {'Some(' + str(m.eval(want_val, model_completion=True)) + ')' if want_some else 'None'}",
+                     "span": None, "call": "TimeParser::normalize_integer_epoch", "path": [], "model": {"n": str(nv)}}
+        binary = native_binary(ctx.log)
+        if binary is None:
+            r.status = "inconclusive"
+            r.notes.append("native replay program did not build")
+            return out
+        exp = str(m.eval(want_val, model_completion=True)) if want_some else "none"
+        rc, line = run_native(binary, ["epoch", str(nv), exp])
+        r.witness["native"] = line
+        if rc != 3:
+            r.status = "inconclusive"
+            r.notes.append("counterexample did not reproduce on the real parser: " + line)
+        return out
+    q.solver_s += _time.time() - t0
+    return out
+
+
 def obligations(ctx):
     out = []
+    out += epoch_heuristic(ctx)
     for oid, needle, label, what in SITES:
         ghosts = {"timeparser": ghost(r"TimeParser::parse_str_to_epoch_seconds$")}
         b = Builder(ctx, needle, label, ghosts)
